@@ -274,6 +274,10 @@ func Drive(o DriveOpts) int {
 				cmd.Stdout = lf
 				cmd.Stderr = lf
 				cmd.Env = append(os.Environ(), "GOTRACEBACK=all")
+				if os.Getenv("GORACE") == "" {
+					// race builds: keep going after a report, leave the exit code to the child
+					cmd.Env = append(cmd.Env, "GORACE=halt_on_error=0 exitcode=0")
+				}
 				cmd.SysProcAttr = &syscall.SysProcAttr{Setpgid: true}
 				err := cmd.Start()
 				if err != nil {
